@@ -399,7 +399,113 @@ func comparisonStringCovers(p *load.Prog) (bool, string) {
 	return true, ""
 }
 
+// eventDateBlank: EventDate.WriteHTMLTo indexes dates[0] only after IsBlank() answered false, and IsBlank is len(dates) == 0.
+func eventDateBlank(p *load.Prog) (bool, string) {
+	w := p.Method(load.PkgHTML, "EventDate", "WriteHTMLTo")
+	ib := p.Method(load.PkgHTML, "EventDate", "IsBlank")
+	if w == nil || ib == nil {
+		return false, "EventDate.WriteHTMLTo / IsBlank not found"
+	}
+	// IsBlank: single return of len(recv.dates) == 0
+	okShape := false
+	for _, b := range ib.Blocks {
+		if ret, ok := b.Instrs[len(b.Instrs)-1].(*ssa.Return); ok && len(ret.Results) == 1 {
+			if bo, ok := ret.Results[0].(*ssa.BinOp); ok && bo.Op == token.EQL {
+				if k, isK := su.ConstInt(bo.Y); isK && k == 0 {
+					if c, isC := bo.X.(*ssa.Call); isC {
+						if bi, isB := c.Call.Value.(*ssa.Builtin); isB && bi.Name() == "len" {
+							if ld, isLd := c.Call.Args[0].(*ssa.UnOp); isLd {
+								if fa, isFA := ld.X.(*ssa.FieldAddr); isFA && su.FieldName(fa) == "dates" {
+									okShape = true
+								}
+							}
+						}
+					}
+				}
+			}
+		}
+	}
+	if !okShape || len(ib.Blocks) != 1 {
+		return false, "EventDate.IsBlank is no longer `len(c.dates) == 0`"
+	}
+	// every index of c.dates in WriteHTMLTo is dominated by the false edge of IsBlank(c)
+	var safe *ssa.BasicBlock
+	for _, b := range w.Blocks {
+		if iff, ok := b.Instrs[len(b.Instrs)-1].(*ssa.If); ok {
+			if c, isC := iff.Cond.(*ssa.Call); isC && c.Call.StaticCallee() == ib && len(b.Succs[1].Preds) == 1 {
+				safe = b.Succs[1]
+			}
+		}
+	}
+	if safe == nil {
+		return false, "EventDate.WriteHTMLTo no longer returns early when IsBlank()"
+	}
+	for _, b := range w.Blocks {
+		for _, ins := range b.Instrs {
+			if ia, ok := ins.(*ssa.IndexAddr); ok {
+				if ld, isLd := ia.X.(*ssa.UnOp); isLd {
+					if fa, isFA := ld.X.(*ssa.FieldAddr); isFA && su.FieldName(fa) == "dates" {
+						if !(safe == b || safe.Dominates(b)) {
+							return false, "c.dates is indexed outside the not-blank branch"
+						}
+					}
+				}
+			}
+		}
+	}
+	return true, ""
+}
+
+// multipleSexesGuard: every MultipleSexesWarning is built from a list tested to have more than one element.
+func multipleSexesGuard(p *load.Prog) (bool, string) {
+	ctor := p.Func(load.PkgRoot, "NewMultipleSexesWarning")
+	if ctor == nil {
+		return false, "NewMultipleSexesWarning not found"
+	}
+	n := 0
+	for _, fn := range p.Repo {
+		for _, c := range su.CallsTo(fn, ctor) {
+			n++
+			if len(c.Call.Args) < 2 {
+				return false, "NewMultipleSexesWarning changed its parameters"
+			}
+			list := c.Call.Args[1]
+			guarded := false
+			for _, b := range fn.Blocks {
+				iff, ok := b.Instrs[len(b.Instrs)-1].(*ssa.If)
+				if !ok {
+					continue
+				}
+				bo, ok := iff.Cond.(*ssa.BinOp)
+				if !ok || bo.Op != token.GTR {
+					continue
+				}
+				k, isK := su.ConstInt(bo.Y)
+				lc, isC := bo.X.(*ssa.Call)
+				if !isK || k < 1 || !isC {
+					continue
+				}
+				if bi, isB := lc.Call.Value.(*ssa.Builtin); !isB || bi.Name() != "len" || lc.Call.Args[0] != list {
+					continue
+				}
+				if ts := b.Succs[0]; len(ts.Preds) == 1 && (ts == c.Block() || ts.Dominates(c.Block())) {
+					guarded = true
+				}
+			}
+			if !guarded {
+				return false, "NewMultipleSexesWarning is called in " + load.FuncName(fn) + " with a list that was not tested to have more than one element: String() slices sexes[:len-1] and indexes the last one"
+			}
+		}
+	}
+	if n == 0 {
+		return false, "NewMultipleSexesWarning is never called"
+	}
+	return true, ""
+}
+
 var tableSideConditions = map[string]func(p *load.Prog) (bool, string){
+	"P3 index []*gedcom.DateNode const 0 in (*html.EventDate).WriteHTMLTo":           eventDateBlank,
+	"P3 slice []string in (*gedcom.MultipleSexesWarning).String":                     multipleSexesGuard,
 	"P3 slice string in gedcom.NewUUIDFromString":                                    uuidPattern32,
 	"P3 slice string in gedcom.NewUUIDFromString #2":                                 uuidPattern32,
 	"P3 slice string in gedcom.NewUUIDFromString #3":                                 uuidPattern32,
